@@ -80,6 +80,59 @@ def rule(F, rep, rid):
             rep.violation(R, "%s|calls|%s" % (q, w), "%s enters %s directly, bypassing execute_call and the parameter check" % (q, w))
 
 
+_PROVIDER = {}
+
+
+def _is_env_provider(F, q):
+    """q returns, as its only `Some(environment)`, a clone of the `env` of `FuncKind::Normal` of the function value it is given"""
+    if q in _PROVIDER:
+        return _PROVIDER[q]
+    fn = F.fn_opt(q)
+    res = False
+    if fn is not None and fn.body is not None:
+        body = fn.body
+        defs = {}
+        for bb, si, st in body.assigns():
+            if not st["p"]["p"]:
+                defs.setdefault(st["p"]["l"], []).append(("a", st["rv"]))
+        for bb, t in body.calls():
+            if not t["dst"]["p"]:
+                defs.setdefault(t["dst"]["l"], []).append(("c", t))
+
+        def from_normal_env(op, depth=0):
+            if op["k"] not in ("copy", "move") or depth > 8:
+                return False
+            pr = [p for p in op["p"] if p != "*"]
+            for i, p in enumerate(pr):
+                if p["k"] == "f" and p.get("n") == "env" and i > 0 and pr[i - 1]["k"] == "d" and pr[i - 1]["v"] == "Normal":
+                    return True
+            ds = defs.get(op["l"], [])
+            if not ds:
+                return False
+            for kind, d in ds:
+                if kind == "c":
+                    nm = callee_name(d) or ""
+                    if not (nm.endswith("Clone>::clone") and d["xs"] and from_normal_env(d["xs"][0], depth + 1)):
+                        return False
+                else:
+                    if d["k"] == "use":
+                        if not from_normal_env(d["x"], depth + 1):
+                            return False
+                    elif d["k"] in ("ref", "rawptr"):
+                        x = dict(d["p"])
+                        x["k"] = "copy"
+                        if not from_normal_env(x, depth + 1):
+                            return False
+                    else:
+                        return False
+            return True
+        somes = [st["rv"] for bb, si, st in body.assigns() if st["rv"]["k"] == "agg" and st["rv"].get("adt") == "core::option::Option"
+                 and st["rv"]["v"] == "Some" and "ThunkEnv" in body.ty(st["p"]["t"])["s"]]
+        res = bool(somes) and all(from_normal_env(rv["xs"][0]) for rv in somes)
+    _PROVIDER[q] = res
+    return res
+
+
 def rule_default_env(F, rep, rid):
     """the environment in which omitted parameters' defaults are evaluated is the function's own closure environment"""
     R = rep.rule(rid, "default values of omitted parameters are evaluated in the function's closure environment: every call of "
@@ -104,7 +157,14 @@ def rule_default_env(F, rep, rid):
                     org.add(("const", x.get("s")))
                 else:
                     org |= P.origins_op(x)
-            ok = bool(org) and all((o[0] == "call" and o[1].endswith("get_func_info")) or o[0] == "arg" for o in org)
+            ok = bool(org) and all((o[0] == "call" and (o[1].endswith("get_func_info") or _is_env_provider(F, o[1]))) or o[0] == "arg"
+                                   for o in org)
+            if not ok and bool(org) and all(o[0] in ("call", "arg", "agg") for o in org):
+                # a helper that did not exist on the reference tree was read in place: accept it when the environment it hands out
+                # is the called function's own (`FuncKind::Normal { env, .. }`)
+                provs = [q for q in (t2["f"].get("r") for _, t2 in body.calls() if t2["f"].get("rlocal")) if q and F.is_new_fn(q) and _is_env_provider(F, q)]
+                if provs and all(o[0] != "call" or o[1].endswith("get_func_info") or _is_env_provider(F, o[1]) for o in org):
+                    ok = True
             rep.ob(R, "%s|func_env@%s" % (fn.q, body.span(t["sp"]).rsplit("/", 1)[-1]), ok, {"caller": fn.q, "func_env_origins": sorted(map(str, org))})
             if not ok:
                 rep.violation(R, "%s|func_env" % fn.q,
